@@ -73,6 +73,21 @@ def apply_case(el, typ, name, route, net_std=None):
     import pandapower as pp
     from ..templates import line as mkline, trafo as mktrafo, trafo3w as mkt3
     net, b = feeder()
+    if route == "rechange":
+        # an earlier definition under the same name (numbers scaled by 1.25), an element created from it, then the
+        # definition is replaced and the unchanged name re-applied
+        old = {k: (v * 1.25 if isinstance(v, float) and k not in ("shift_degree", "shift_mv_degree", "shift_lv_degree") else v)
+               for k, v in copy.deepcopy(typ).items()}
+        pp.create_std_type(net, old, name, element=el, overwrite=True)
+        if el == "line":
+            i = pp.create_line(net, b[1], b[2], 2.0, name)
+        elif el == "trafo":
+            i = pp.create_transformer(net, b[0], b[1], name)
+        else:
+            i = pp.create_transformer3w(net, b[0], b[1], b[4], name)
+        pp.create_std_type(net, copy.deepcopy(typ), name, element=el, overwrite=True)
+        pp.change_std_type(net, i, name, element=el)
+        return net, i
     if name not in net.std_types[el]:
         pp.create_std_type(net, copy.deepcopy(typ), name, element=el)
     if el == "line":
